@@ -25,7 +25,13 @@ def origins(cfg):
            ('listed', False, ALLOWED, {}),
            ('foreign', False, 'https://evil.example', {}),
            ('foreign', True, 'https://evil.example', {'X-Forwarded-Host': 'proxy.example'}),
-           ('foreign', False, 'null', {})]
+           ('foreign', False, 'null', {}),
+           # both forwarded headers present: the request's own origin is the pair seen directly
+           # or the pair seen through the forwarding headers; own scheme + forwarded host is
+           # neither (forwarded scheme + own host is left out: the ASGI driver has no other
+           # notion of the direct scheme than X-Forwarded-Proto)
+           ('foreign', True, 'http://proxy.example', {'X-Forwarded-Proto': 'https',
+                                                      'X-Forwarded-Host': 'proxy.example'})]
     if cfg == 'list':
         out.append(('listed', False, 'https://other.example', {}))
     base = ALLOWED if cfg in ('str', 'list') else 'http://test'
